@@ -15,8 +15,11 @@ import SLModel.Lemmas.Post
   `∀ r, strip (search o r m) = strip (search o {r with explain := false, profile := false} m)`.
   Negative witnesses: `explain_fetch_depth_witness` (with another sort `explain` makes every
   segment rank all its documents instead of the shared `limit+1` heap: collapse sees more
-  groups) and `explain_scores_witness` (with a sort that ignores `_score` scores are computed
-  only under `explain`).
+  groups).
+* `mech_explain_eq_plain_partial` — the code's response does not depend on the flags for **any
+  sort** when the request has neither rescoring nor collapse.  New with /repo 8218789 / a5f1a65
+  (scores are always computed); the old behaviour is documented by
+  `legacy_explain_scores_witness` (about `legacyScoreSearch`) next to `explain_scores_repaired`.
 -/
 namespace SL.Post
 variable {S : Type}
@@ -180,13 +183,8 @@ flags **on the score fast path** -/
 theorem mech_explain_eq_partial (o : ScoreOps S) (r : Req S) (hfast : isFast r.plan = true)
     (matched : List (Hit S)) :
     strip (search o r matched) = strip (search o (flagsOff r) matched) := by
-  have hu := usesScore_of_isFast hfast
-  have hseen : ∀ r' : Req S, r'.plan = r.plan → matched.map (seen o r') = matched := by
-    intro r' hp
-    have hsc : scoresComputed r' = true := by simp [scoresComputed, hp, hu]
-    have : seen o r' = id := by
-      funext h; simp [seen, hsc]
-    rw [this, List.map_id]
+  have hseen : ∀ r' : Req S, r'.plan = r.plan → matched.map (seen o r') = matched :=
+    fun r' _ => map_seen o r' matched
   have key : ∀ r' : Req S, r'.plan = r.plan → strip (search o r' matched) =
       { hits := (if r'.returnHits then post o (flagsOff r') (rescore o)
             ((fetch (klt o r.plan) true r'.explain (topKOf r') r'.nseg
@@ -221,6 +219,85 @@ theorem mech_explain_eq_partial (o : ScoreOps S) (r : Req S) (hfast : isFast r.p
   rw [key r rfl, key (flagsOff r) rfl]
   rfl
 
+
+/-! ### requests without rescoring and collapse: the fetch depth does not show -/
+
+theorem page_take (r : Req S) (hnc : r.collapse = none) (gs : List (Hit S × List (Hit S))) (k : Nat)
+    (hk : r.limit < k) : page r (gs.take k) = page r gs := by
+  unfold page
+  have h1 : (gs.take k).take r.limit = gs.take r.limit := by
+    rw [List.take_take, Nat.min_eq_left (Nat.le_of_lt hk)]
+  have h2 : ((gs.take k).length > r.limit) ↔ (gs.length > r.limit) := by
+    simp only [List.length_take, gt_iff_lt]; omega
+  rw [h1, hnc]
+  simp only [h2]
+
+theorem post_take (o : ScoreOps S) (r : Req S)
+    (resc : (Hit S → Hit S → Bool) → Mode → Bool → Nat → List (Hit S) → List (Hit S))
+    (hnr : r.rescore = none) (hnc : r.collapse = none) (X : List (Hit S)) (k : Nat) (hk : r.limit < k) :
+    post o r resc (X.take k) = post o r resc X := by
+  unfold post rescored explained grouped
+  rw [hnr, hnc]
+  simp only
+  have hmap : ∀ Y : List (Hit S),
+      (if r.explain = true then (Y.take k).map setFinal else Y.take k).map (fun h => (h, ([] : List (Hit S)))) =
+      ((if r.explain = true then Y.map setFinal else Y).map (fun h => (h, ([] : List (Hit S))))).take k := by
+    intro Y
+    split <;> simp only [List.map_take]
+  rw [hmap, page_take r hnc _ k hk]
+
+/-- `…_partial`: without rescoring and collapse the code's response (without
+`explanation`/`profile`) does not depend on the flags, whatever the sort.  Before /repo 8218789
+and a5f1a65 this needed "scores are computed anyway" as a further hypothesis
+(`legacy_explain_scores_witness`); what is still excluded is the interaction of the deeper
+fetch under `explain` with rescoring and collapse (`explain_fetch_depth_witness`). -/
+theorem mech_explain_eq_plain_partial (o : ScoreOps S) (r : Req S) (hnr : r.rescore = none)
+    (hnc : r.collapse = none) (hlim : r.limit ≤ maxCandidate) (matched : List (Hit S)) :
+    strip (search o r matched) = strip (search o (flagsOff r) matched) := by
+  cases hnf : isFast r.plan with
+  | true => exact mech_explain_eq_partial o r hnf matched
+  | false =>
+    have key : ∀ r' : Req S, r'.plan = r.plan → r'.rescore = none → r'.collapse = none →
+        r'.limit ≤ maxCandidate → strip (search o r' matched) =
+        { hits := (if r'.returnHits then post o (flagsOff r') (rescore o)
+              ((isort (klt o r.plan) (afterCursor (klt o r.plan) r'.cursor matched)).map stripHit)
+            else ([], none, none)).1,
+          total := (afterCursor (klt o r.plan) r'.cursor matched).length + returned r'.cursor,
+          totalGroups := (if r'.returnHits then post o (flagsOff r') (rescore o)
+              ((isort (klt o r.plan) (afterCursor (klt o r.plan) r'.cursor matched)).map stripHit)
+            else ([], none, none)).2.1,
+          next := (if r'.returnHits then post o (flagsOff r') (rescore o)
+              ((isort (klt o r.plan) (afterCursor (klt o r.plan) r'.cursor matched)).map stripHit)
+            else ([], none, none)).2.2,
+          aggTerms := aggTerms (afterCursor (klt o r.plan) r'.cursor matched),
+          aggCount := aggCount r'.aggField (afterCursor (klt o r.plan) r'.cursor matched),
+          profile := false } := by
+      intro r' hp hnr' hnc' hlim'
+      rw [strip_eq]
+      unfold search
+      simp only [map_seen o r' matched, hp, hnf]
+      cases hr : r'.returnHits with
+      | false => simp
+      | true =>
+        simp only [if_true]
+        -- what reaches post-processing, whichever way it was fetched
+        have hfe : post o r' (rescore o) (fetch (klt o r.plan) false r'.explain (topKOf r') r'.nseg
+              (afterCursor (klt o r.plan) r'.cursor matched)) =
+            post o r' (rescore o) (isort (klt o r.plan) (afterCursor (klt o r.plan) r'.cursor matched)) := by
+          unfold fetch topK
+          simp only [Bool.false_eq_true, if_false]
+          split
+          · rfl
+          · exact post_take o r' (rescore o) hnr' hnc' _ _ (limit_lt_topKOf r' hr hlim')
+        rw [hfe]
+        have := post_strip o r' (rescore o)
+          (fun mode e w l => by rw [hp]; exact rescore_strip o r.plan mode e w l)
+          (isort (klt o r.plan) (afterCursor (klt o r.plan) r'.cursor matched))
+        rw [← this]
+        rfl
+    rw [key r rfl hnr hnc hlim, key (flagsOff r) rfl hnr hnc hlim]
+    rfl
+
 /-! ### non-vacuity and negative witnesses (integer scores) -/
 
 private def mk (doc : Nat) (score : Int) (n : Int) (g : Nat) : Hit Int :=
@@ -254,11 +331,23 @@ theorem explain_fetch_depth_witness :
      (search intOps { byField with explain := true } docs).next.isSome) = (some 3, true) := by
   decide
 
-/-- **negative witness** (scores): under a sort that ignores `_score` the returned hit carries
-score 0 without `explain` and its real score with `explain` -/
-theorem explain_scores_witness :
-    ((search intOps { byField with collapse := none } docs).hits.map (·.1.score)) = [0] ∧
+/-- **legacy negative witness** (scores, before /repo 8218789 / a5f1a65): under a sort that
+ignores `_score` the returned hit carried score 0 without `explain` and its real score with
+`explain` -/
+theorem legacy_explain_scores_witness :
+    ((legacyScoreSearch intOps { byField with collapse := none } docs).hits.map (·.1.score)) = [0] ∧
+    ((legacyScoreSearch intOps { byField with collapse := none, explain := true } docs).hits.map (·.1.score)) = [4] := by
+  decide
+
+/-- the same requests on the current model: the score does not depend on the flag (an instance of
+`mech_explain_eq_plain_partial`) -/
+theorem explain_scores_repaired :
+    ((search intOps { byField with collapse := none } docs).hits.map (·.1.score)) = [4] ∧
     ((search intOps { byField with collapse := none, explain := true } docs).hits.map (·.1.score)) = [4] := by
   decide
+
+example : strip (search intOps { byField with collapse := none, explain := true } docs) =
+    strip (search intOps (flagsOff { byField with collapse := none, explain := true }) docs) :=
+  mech_explain_eq_plain_partial intOps _ rfl rfl (by decide) docs
 
 end SL.Post
